@@ -161,6 +161,12 @@ def build_stages(ctx):
         beta[idx] = too.beta_rad(); L[idx] = too.pathLens()
         return (np.asarray(nad).copy(), hm, keep, beta, L)
     stages.append(Stage("RegionGeomToO.throw", t_make, t_call, max_n=60))
+
+    # a batch dense in time (a transient followed at second cadence): hundreds of instants within a few hours
+    def t_make_dense(n):
+        start = float(rng.uniform(0.0, 0.85))
+        return {"times": start + np.sort(rng.uniform(0.0, 0.1, n))}
+    stages.append(Stage("RegionGeomToO.throw[dense in time]", t_make_dense, t_call, max_n=900, expensive=True))
     # ---- spectra (power law), np.random.uniform replaced
     pcfg = nss.NssConfig()
     pcfg.simulation.spectrum = nss.config.Simulation.PowerSpectrum(index=2.2, lower_bound=6.5, upper_bound=11.0)
@@ -192,7 +198,10 @@ def build_stages(ctx):
 
     def a_make(n):
         g = 10 ** rng.uniform(3.5, 9, n) / 1.77686
-        return {"beta": rng.uniform(0.0, 0.73, n), "tb": np.sqrt(1 - 1 / g ** 2), "g": g, "u": rng.uniform(1e-6, 1.0, n)}
+        tb = np.sqrt(1 - 1 / g ** 2)
+        if n >= 4:
+            tb[2] = np.nan      # what the tau stage hands on for an above-table angle at the lowest energies (energy below the rest mass)
+        return {"beta": rng.uniform(0.0, 0.73, n), "tb": tb, "g": g, "u": rng.uniform(1e-6, 1.0, n)}
     stages.append(Stage("EAS.altDec", a_make, lambda inp: eas.altDec(inp["beta"], inp["tb"], inp["g"], inp["u"])))
     # ---- optical signal (real Cherenkov kernel: expensive)
 
